@@ -110,6 +110,7 @@ def run_kernel_item(item):
                             mode=item.get('mode', 'eager'), defer_traps=item.get('defer_traps', True),
                             solver_timeout_ms=item.get('feas_ms', 3000))
         eng.loop_limits.update(item.get('loop_limits', {}))
+        eng.deadline = eng.ctx.deadline = time.time() + item.get('budget_s', 900)
         if item.get('contracts'):
             from llsym import contracts
             out['contracts'] = contracts.install(eng)
